@@ -107,7 +107,9 @@ def oracle_krum(chk, c, dt, found):
             mx = max(sc) if sc else 0.0
             worst_sel = max(sc[i] for i in sel)
             best_unsel = min([sc[j] for j in range(m) if j not in sel], default=float("inf"))
-            if worst_sel > best_unsel + TOLV[dt] * max(mx, 1e-300):
+            # tolerance relative to the scores being compared (NOT to the largest score: a corrupted
+            # row's score is up to 1e12 times the honest ones and would mask every honest mis-ordering)
+            if worst_sel > best_unsel + TOLV[dt] * max(min(worst_sel, best_unsel if best_unsel != float("inf") else worst_sel), 1e-300):
                 bad = (f"Krum({f},{k}) selected rows {sel} but a selected score {worst_sel:.9e} "
                        f"exceeds an unselected one {best_unsel:.9e} (sum of distances to the "
                        f"m-f-2 nearest other rows)")
